@@ -284,8 +284,16 @@ func c19(rng *rand.Rand) string {
 }
 
 // ---------- C11
-func c11(rng *rand.Rand) string {
+func c11(rng *rand.Rand) string { return c11G(rng, false) }
+
+// the same with FileDiff.WhitespaceIgnore (spaces are ignored when lines are compared)
+func c11ws(rng *rand.Rand) string { return c11G(rng, true) }
+
+func c11G(rng *rand.Rand, ws bool) string {
 	pool := []string{"a", "b", "c", "a", "", "x y", "é", "\xff\xfe", "line\r"}
+	if ws {
+		pool = []string{"a", "b", " a", "a ", "", "x y", "xy", "  ", " ", "b\r"}
+	}
 	maxLines := 8
 	if rng.Intn(2) == 0 {
 		// few distinct lines, many repeats: edits can slide over equal runs in the cleanup passes
@@ -308,7 +316,7 @@ func c11(rng *rand.Rand) string {
 	if a == b {
 		return ""
 	}
-	fd := &items.FileDiff{CleanupDisabled: rng.Intn(2) == 0}
+	fd := &items.FileDiff{CleanupDisabled: rng.Intn(2) == 0, WhitespaceIgnore: ws}
 	fd.Initialize(nil2())
 	h1, h2 := plumbing.NewHash("11"), plumbing.NewHash("22")
 	b1 := &items.CachedBlob{Data: []byte(a)}
@@ -343,7 +351,7 @@ func c11(rng *rand.Rand) string {
 		switch e.Type {
 		case diffmatchpatch.DiffEqual:
 			for k := 0; k < n; k++ {
-				if i >= len(la) || j >= len(lb) || la[i] != lb[j] {
+				if i >= len(la) || j >= len(lb) || la[i] != lb[j] && !(ws && strings.Replace(la[i], " ", "", -1) == strings.Replace(lb[j], " ", "", -1)) {
 					return fmt.Sprintf("equal run not equal for %q %q", a, b)
 				}
 				i++
@@ -374,7 +382,7 @@ type gitRepo = gitRepository
 
 func main() {
 	log.SetOutput(ioutil.Discard)
-	fs := map[string]func(*rand.Rand) string{"c16": c16, "c16merge": c16merge, "c16mergeS": c16mergeS, "c19": c19, "c11": c11}
+	fs := map[string]func(*rand.Rand) string{"c16": c16, "c16merge": c16merge, "c16mergeS": c16mergeS, "c19": c19, "c11": c11, "c11ws": c11ws}
 	hv.RunOracle(func(cs int64, extra []string) (desc string, class string, m string, tags []string) {
 		mode := extra[0]
 		classify := func() {
